@@ -192,27 +192,22 @@ FromRewrite(ro, q) ==
 
 \* (c and e are bound by quantifiers over singleton sets: TLC evaluates a bound
 \* variable once, a LET definition at every use.)
-\* L is a set of RewritesCore's "deviations": {} is the specification of C06;
-\* RW!Deviations admits, besides it, the behaviours that C06 records as OPEN
-\* FINDINGS of the code (known_findings/C06.jsonl: one entry of several equally
-\* specific wildcard entries answers, an exact entry of the other family does
-\* not shadow a wildcard, an exception met on a canonical name cancels the
-\* CNAME).  The model (AdGuardHome.tla) is checked with {}.  The validation of
-\* recorded histories tries {} first and only then the deviations: the
-\* composition does not judge rewrite precedence a second time, it checks that
-\* log and statistics agree with whatever the table answered.
-ServedWith(S, q, c, e, L) ==
+\* RewritesCore!Outcomes is the specification of C06 proper (no deviations:
+\* the six findings of C06 are fixed in the code; while they were open the
+\* validation of recorded histories fell back to RewritesCore!Deviations for
+\* lines the specification did not explain -- on the final tree no line needs
+\* that, and the fallback is gone).
+ServedWith(S, q, c, e) ==
     IF e.vals.filt
     THEN UNION {IF ro.r = "pass" THEN PipeOutcomes(S, q, c, e) ELSE {FromRewrite(ro, q)}
-                : ro \in RW!OutcomesL(S.rw, q.name, q.qt, L)}
+                : ro \in RW!Outcomes(S.rw, q.name, q.qt)}
     ELSE PipeOutcomes(S, q, c, e)
-ServedOutcomes(S, q, L) ==
-    UNION {ServedWith(S, q, c, e, L) : c \in {Who(S.reg, q.cid, q.addr)}, e \in {Eff(S, q)}}
+ServedOutcomes(S, q) ==
+    UNION {ServedWith(S, q, c, e) : c \in {Who(S.reg, q.cid, q.addr)}, e \in {Eff(S, q)}}
 
-QueryOutcomesL(S, q, L) ==
-    UNION {IF a = "served" THEN ServedOutcomes(S, q, L) ELSE {Denied(a)}
+QueryOutcomes(S, q) ==
+    UNION {IF a = "served" THEN ServedOutcomes(S, q) ELSE {Denied(a)}
            : a \in AC!Outcomes(S.acc, AReq(q))}
-QueryOutcomes(S, q) == QueryOutcomesL(S, q, {})
 
 \* ----------------------------------------------- what a query leaves behind
 \* IgnoreAnonCore decides from ITS view of the registry (a set of
@@ -259,9 +254,9 @@ R(S, out) == [S |-> S, out |-> out]
 
 ClientRes(S, r) == {R([S EXCEPT !.reg = r.reg], r.out)}
 
-ApplyL(S, op, L) ==
+Apply(S, op) ==
     CASE op.k = "query" ->
-            {R(Commit(S, op, o), o) : o \in QueryOutcomesL(S, op, L)}
+            {R(Commit(S, op, o), o) : o \in QueryOutcomes(S, op)}
       \* POST /control/clients/add | update | delete  (ClientsCore)
       [] op.k = "client_add"    -> ClientRes(S, CL!AddRes(S.reg, op.c))
       [] op.k = "client_update" -> ClientRes(S, CL!UpdateRes(S.reg, op.name, op.c))
@@ -290,7 +285,6 @@ ApplyL(S, op, L) ==
       [] op.k = "qlog_clear" -> {R([S EXCEPT !.log = <<>>], "ok")}
       \* POST /control/stats_reset
       [] op.k = "stats_reset" -> {R([S EXCEPT !.st = NoStats, !.anonst = S.q.anon], "ok")}
-Apply(S, op) == ApplyL(S, op, {})
 
 \* ------------------------------------------------- GET /control/querylog
 \* The view of the log under the CURRENT configuration, newest first.  An
